@@ -226,7 +226,7 @@ def write_evidence(pid, tier, seed, level, coverage, wall, violations, assumptio
 
 
 def save_replay(pid, seed, n, payload):
-    d = os.path.join(ROOT, 'replays', pid)
+    d = os.path.join(os.environ.get('VERIF_REPLAYS', os.path.join(ROOT, 'replays')), pid)
     os.makedirs(d, exist_ok=True)
     p = os.path.join(d, '%s-%d.json' % (seed, n))
     with open(p, 'w') as f:
